@@ -937,6 +937,9 @@ impl TransactionBuilder {
                 )));
             }
             self.collateral_return = Some(return_output);
+        } else {
+            // the total takes everything: a return set earlier must not stay in the body
+            self.collateral_return = None;
         }
         self.set_total_collateral(total_collateral);
 
